@@ -73,7 +73,7 @@ func calculateFloat(f1 float64, f2 float64, operator int) value.Primary {
 	case '/':
 		result = f1 / f2
 	case '%':
-		result = math.Remainder(f1, f2)
+		result = math.Mod(f1, f2)
 	}
 
 	return value.NewFloat(result)
